@@ -432,16 +432,27 @@ Definition ran_paths (l : list eff) : list string :=
 Definition is_none {A} (o : option A) : bool := match o with None => true | _ => false end.
 
 Definition removed (w w' : fs) : list string :=
-  map fst (filter (fun e => negb (is_none (fs_lookup (fst e) w)) && is_none (fs_lookup (fst e) w')) w).
+  map fst (filter (fun e => is_none (fs_lookup (fst e) w')) w).
 
 Definition written (w w' : fs) : list (string * node) :=
   filter (fun e => opt_eqb node_eqb (fs_lookup (fst e) w') (Some (snd e))
                    && negb (opt_eqb node_eqb (fs_lookup (fst e) w) (Some (snd e)))) w'.
 
+(* effects that change the file system *)
+Definition mutating (e : eff) : bool :=
+  match e with ERemoveAll _ | EMkdirAll _ | EWrite _ | EChmod _ => true | _ => false end.
+
+(* The before/after difference is only computed when the log contains a
+   mutating effect; without one the file system is unchanged and the difference
+   is empty (lemma [model_diff_exact] in C16_Proofs: the two lists always equal
+   [removed]/[written] of the initial and final file system). *)
 Definition model (i : input) : obs :=
   let r := exec_op i in
+  let mut := existsb mutating (r_log r) in
   mk_obs (r_err r) (r_meta r) (ran_paths (r_log r))
-         (removed (world i) (r_fs r)) (written (world i) (r_fs r)) (r_strs r).
+         (if mut then removed (world i) (r_fs r) else [])
+         (if mut then written (world i) (r_fs r) else [])
+         (r_strs r).
 
 (* ---------- boolean equalities ---------- *)
 Definition err_eqb (a b : err) : bool :=
@@ -563,14 +574,10 @@ Definition spec_ok (i : input) (o : obs) : bool :=
   end.
 
 (* ---------- input contract ---------- *)
-Fixpoint nodup_keys (w : fs) : bool :=
-  match w with
-  | [] => true
-  | (p, _) :: w' => is_none (fs_lookup p w') && nodup_keys w'
-  end.
-
+(* the plugin root is a rooted path (dir.PluginFS is built from the user's
+   libexec directory); an install source is given as a clean rooted path *)
 Definition wf (i : input) : bool :=
-  is_abs (i_root i) && nodup_keys (world i)
+  is_abs (i_root i)
   && match i_op i with
      | OInstall src _ => is_abs src && String.eqb (clean src) src
      | _ => true
